@@ -29,7 +29,7 @@ func init() {
 		Doc: "a foreign occurrence is skipped over exactly the tokens an own occurrence of that form consumes; an own match reports the number of tokens it dropped", Run: mat7})
 	register(&Rule{ID: "MAT-8", Props: []string{"C10", "C19"}, Floor: 7,
 		Doc: "sibling guards: own option only; empty '=' value is no match; separate value starting with '-' is no match; a flag (IsBool of the looked-up option) records \"true\"", Run: mat8})
-	register(&Rule{ID: "MAT-11", Props: []string{"C11", "C01"}, Floor: 3,
+	register(&Rule{ID: "MAT-11", Props: []string{"C11", "C01"}, Floor: 4,
 		Doc: "group retry: (false, input) if the first try fails, else try again on each new vector until a try fails, returning the last vector", Run: mat11})
 	register(&Rule{ID: "MAT-12", Props: []string{"C03", "C11"}, Floor: 3,
 		Doc: "matcher loops progress: every back edge adds a positive amount to the loop counter", Run: mat12})
@@ -223,12 +223,18 @@ func mat2(c *Ctx) {
 				c.Check(s == "true", key, r.mu.Pos(), "records the flag literal \"true\"", fmt.Sprintf("records the invented constant %q", s))
 				continue
 			}
-			roots := tokenProvenance(r.val)
-			good := len(roots) > 0
-			for _, root := range roots {
-				if root != ssa.Value(args) {
-					good = false
+			good := true
+			n := 0
+			for _, v := range ir.PhiValuesAt(r.val, r.mu.Block()) {
+				for _, root := range tokenProvenance(v) {
+					n++
+					if root != ssa.Value(args) {
+						good = false
+					}
 				}
+			}
+			if n == 0 {
+				good = false
 			}
 			c.Check(good, key, r.mu.Pos(), "the recorded string is a sub-slice of a token of the argument vector", "the recorded string is not (only) a sub-slice of a command-line token: it is transformed, concatenated or comes from elsewhere")
 		}
@@ -1174,76 +1180,71 @@ func mat11(c *Ctx) {
 		return
 	}
 	try := c.fnOpt("internal/matcher", "options.try")
-	var args *ssa.Parameter
-	for _, p := range fn.Params {
-		if isStringSlice(p.Type()) {
-			args = p
-		}
-	}
-	var first, loop *ssa.Call
-	for _, call := range ir.Calls(fn) {
-		cv, ok := call.(*ssa.Call)
-		if !ok || ir.Static(cv) != try || try == nil {
-			continue
-		}
-		if cv.Call.Args[1] == ssa.Value(args) {
-			first = cv
-		} else {
-			loop = cv
-		}
-	}
-	if first == nil || loop == nil {
-		c.Bad(Q(fn)+":shape", fn.Pos(), "expected a first try on the input and a retry in a loop")
+	if try == nil {
+		c.Undecided("anchor:matcher.options.try", token.NoPos, "the single-step helper of the group matcher was not found")
 		return
 	}
 	c.Mark(try)
-	// first fails -> (false, args)
-	okFirst := true
-	v0 := extractOf(first, 0)
-	for _, e := range ir.EdgesWhere(fn, v0, false) {
-		for r := range ir.Reach(e.To, nil, nil) {
-			if ir.IsReturn(r) {
-				ret := r.Instrs[len(r.Instrs)-1].(*ssa.Return)
-				if v, isC := ir.ConstBool(ret.Results[0]); !isC || v || ret.Results[1] != ssa.Value(args) {
-					okFirst = false
-				}
+	// execute Match symbolically for the outcome sequences of the single-step helper
+	scenarios := [][]bool{{false}, {true, false}, {true, true, false}, {true, true, true, false}}
+	for _, outcomes := range scenarios {
+		name := ""
+		for _, o := range outcomes {
+			if o {
+				name += "T"
+			} else {
+				name += "F"
 			}
 		}
-	}
-	c.Check(okFirst && v0 != nil, Q(fn)+":first-fails", first.Pos(), "no option of the group matched: (false, input)", "a failed first try does not return (false, input)")
-	// loop: vector phi
-	phi, isPhi := loop.Call.Args[1].(*ssa.Phi)
-	okLoop := false
-	if isPhi && len(phi.Edges) == 2 {
-		e1, e2 := extractOf(first, 1), extractOf(loop, 1)
-		has := func(v ssa.Value) bool { return phi.Edges[0] == v || phi.Edges[1] == v }
-		okLoop = e1 != nil && e2 != nil && has(e1) && has(e2)
-	}
-	c.Check(okLoop, Q(fn)+":retry", loop.Pos(), "each retry runs on the vector the previous successful try returned", "the retry does not run on the vector returned by the previous successful try")
-	// exits: loop try false -> (true, phi)
-	okExit := true
-	lv := extractOf(loop, 0)
-	for _, e := range ir.EdgesWhere(fn, lv, false) {
-		for r := range ir.Reach(e.To, nil, nil) {
-			if ir.IsReturn(r) {
-				ret := r.Instrs[len(r.Instrs)-1].(*ssa.Return)
-				if v, isC := ir.ConstBool(ret.Results[0]); !isC || !v || ret.Results[1] != ssa.Value(phi) {
-					okExit = false
-				}
+		key := fmt.Sprintf("%s[try=%s]", Q(fn), name)
+		k := 0
+		var argOf []string
+		m := &symMachine{}
+		m.onCall = func(m *symMachine, call ssa.CallInstruction, callee *ssa.Function, args []symVal) (symVal, bool) {
+			if callee != try {
+				return nil, false
+			}
+			if k >= len(outcomes) {
+				m.fail("the step helper is called more often than the scenario allows")
+				return nil, true
+			}
+			vec, ctx := "?", "?"
+			if len(args) == 3 {
+				vec, ctx = symStr(args[1]), symStr(args[2])
+			}
+			argOf = append(argOf, vec+"/"+ctx)
+			res := []symVal{outcomes[k], fmt.Sprintf("ret#%d", k+1)}
+			k++
+			return res, true
+		}
+		res := m.run(fn, []symVal{"om", "args", "ctx"}, nil)
+		if m.err != "" {
+			c.Undecided(key, fn.Pos(), "cannot execute the group matcher symbolically: %s", m.err)
+			continue
+		}
+		var problems []string
+		n := len(outcomes)
+		if k != n {
+			problems = append(problems, fmt.Sprintf("the step helper ran %d times, expected %d (retry until it fails)", k, n))
+		}
+		for i, a := range argOf {
+			want := "args/ctx"
+			if i > 0 {
+				want = fmt.Sprintf("ret#%d/ctx", i)
+			}
+			if a != want {
+				problems = append(problems, fmt.Sprintf("step %d runs on %s, expected %s", i+1, a, want))
 			}
 		}
-	}
-	for _, e := range ir.EdgesWhere(fn, lv, true) {
-		if !ir.Reach(e.To, nil, nil)[loop.Block()] {
-			okExit = false
+		wantRes := "(false,args)"
+		if n > 1 {
+			wantRes = fmt.Sprintf("(true,ret#%d)", n-1)
 		}
-		for r := range ir.Reach(e.To, map[*ssa.BasicBlock]bool{loop.Block(): true}, nil) {
-			if ir.IsReturn(r) {
-				okExit = false
-			}
+		if got := symStr(symVal(res)); got != wantRes {
+			problems = append(problems, fmt.Sprintf("returns %s, expected %s", got, wantRes))
 		}
+		reportP(c, key, fn.Pos(), problems, "first step on the input; each further step on the previous result; stops at the first failure; returns (matched at least once, last vector)")
 	}
-	c.Check(okExit && lv != nil, Q(fn)+":until-no-match", loop.Pos(), "retries until a try fails, then returns (true, last vector)", "the group matcher stops before a try failed, or does not return the last vector")
 }
 
 func mat12(c *Ctx) {
